@@ -160,16 +160,16 @@ func (r *Result) Has(property, rule string) bool {
 
 // ReplayFile is what is written to /verif/replays.
 type ReplayFile struct {
-	Property  string    `json:"property"`
-	Rule      string    `json:"rule"`
-	Class     string    `json:"class"`
-	Detail    string    `json:"detail"`
-	Engine    string    `json:"engine"`
-	Plan      *Plan     `json:"plan"`
-	Original  *Plan     `json:"original_plan,omitempty"`
-	Journal   []string  `json:"journal_tail,omitempty"`
-	JournalHash string  `json:"journal_hash,omitempty"`
-	Note      string    `json:"note,omitempty"`
+	Property    string   `json:"property"`
+	Rule        string   `json:"rule"`
+	Class       string   `json:"class"`
+	Detail      string   `json:"detail"`
+	Engine      string   `json:"engine"`
+	Plan        *Plan    `json:"plan"`
+	Original    *Plan    `json:"original_plan,omitempty"`
+	Journal     []string `json:"journal_tail,omitempty"`
+	JournalHash string   `json:"journal_hash,omitempty"`
+	Note        string   `json:"note,omitempty"`
 }
 
 // WriteJSON writes v to path atomically enough for our purposes.
